@@ -24,7 +24,7 @@ Definition has_stamp (p : Z) (e : ev) (l : list (Z * ev)) : bool :=
 Definition is_bad (r : res) : bool := match r with RPanic | RFuel => true | _ => false end.
 
 (* everything the action clauses say about one run *)
-Definition run_ok (acts : list action) (rs hl : Z) (ws : list bytes) (g : nat -> Z) : bool :=
+Definition run_ok (acts : list action) (rs hl : Z) (ws : list bytes) (g : nat -> Z * Z) : bool :=
   let s0 := fst (open_ctx true acts [] true rs hl None 0) in
   let '(s', evs, r) := run g s0 ws in
   let data := concat ws in
@@ -61,8 +61,8 @@ Definition payload (n : nat) : bytes := map (fun i => ascii_of_nat (65 + i)) (se
 Definition splits (b : bytes) : list (list bytes) :=
   map (fun i => [firstn i b; skipn i b]) (seq 0 (S (length b))).
 
-Definition grant_streams : list (nat -> Z) :=
-  [fun _ => 1000; fun i => if Nat.even i then 1 else 3].
+Definition grant_streams : list (nat -> Z * Z) :=
+  [fun _ => (1000, 1000); fun i => if Nat.even i then (1, 5) else (3, 2)].
 
 Definition sweep2 : bool :=
   forallb (fun acts =>
